@@ -81,7 +81,7 @@ def run(i_m):
         p = os.path.join(repo, f); s = open(p).read()
         orig = s[a:b]
         open(p, "w").write(s[:a] + rep + s[b:])
-        env = dict(os.environ, CARGO_NET_OFFLINE="true", CARGO_TARGET_DIR="/tmp/scr/auto/targetc%d" % (i % 3))
+        env = dict(os.environ, CARGO_NET_OFFLINE="true", CARGO_TARGET_DIR="/tmp/scr/auto/target_%d" % (i % 3))
         t = subprocess.run(["cargo", "test", "--offline", "--lib"], cwd=repo, capture_output=True, text=True, env=env, timeout=900)
         if "error" in t.stderr and "could not compile" in t.stderr:
             return i, "NOCOMPILE", f, orig, rep, line, "", []
